@@ -1297,7 +1297,8 @@ conform, the struct of outputs an accepted pipeline delivers – every declared
 output resolved at its declared type – is produced without error and is a valid
 value of the pipeline's output struct type.  This is ONE invocation of the
 pipeline; that the environments `checkCalls` builds are conforming stores for
-every call of every nesting level is NOT a theorem (see the manifest note). -/
+every call of every nesting level is the content of `program_sound_partial` (§12),
+not of this theorem. -/
 theorem return_sound_rt_partial (Γ : Env) (ρ : Store) (name : Bytes) (outs : Fields)
     (ret : List (Bytes × Bind)) (w : Option Wild)
     (hρ : StoreOk Γ ρ) (hwf : (Ty.struct name outs).wf = true)
